@@ -14,7 +14,7 @@ from ..kernelcases import (DTYPES, KERNELS, call_impl, expected_observation, has
                            parse_groups, proto_line, rgs_codes, value_strings)
 
 PID = "C04"
-MODULES = ["GroupbyVerif.Props.C04", "GroupbyVerif.LoopBridge.Reduce"]
+MODULES = ["GroupbyVerif.Props.C04", "GroupbyVerif.LoopBridge.Reduce", "GroupbyVerif.LoopBridge.IsNull"]
 
 
 def alphabet(dt):
